@@ -1,12 +1,19 @@
 //! plonksim — deterministic simulation with fault injection for dusk-plonk.
 //! See /verif/DESIGN.md.
 
+mod c01;
+mod c03;
+mod c04;
+mod c16;
 mod c18;
+mod channel;
 mod deploy;
 mod framework;
 mod json;
+mod mirror;
 mod prng;
 mod program;
+mod rm_verify;
 mod scenario;
 mod seams;
 
@@ -19,6 +26,10 @@ use json::J;
 
 fn prop_fn(id: &str) -> Option<(&'static str, PropFn)> {
     Some(match id {
+        "C01" => ("C01", c01::run as PropFn),
+        "C03" => ("C03", c03::run as PropFn),
+        "C04" => ("C04", c04::run as PropFn),
+        "C16" => ("C16", c16::run as PropFn),
         "C18" => ("C18", c18::run as PropFn),
         _ => return None,
     })
@@ -47,6 +58,10 @@ fn parse_args() -> Args {
 fn main() {
     seams::install_hash_seam();
     seams::install_panic_hook();
+    if !rm_verify::selfcheck_logic_identity() {
+        eprintln!("HARNESS-ERROR reference model self-check failed (logic identity truth table)");
+        std::process::exit(2);
+    }
     let args = parse_args();
     let cmd = args.pos.first().map(|s| s.as_str()).unwrap_or("");
     match cmd {
